@@ -473,6 +473,10 @@ class RSocketBase(RSocket, RSocketInternal):
 
         await self._stop_tasks()
 
+        # the receiver may have ended long ago (connection lost earlier): whatever was requested since is still registered
+        self.stop_all_streams()
+        self._fail_unsent_frames()
+
         await self._close_transport()
 
     async def _stop_tasks(self):
